@@ -325,7 +325,15 @@ class Node:
             )
 
         if new_data_id:
-            # data_id (and possibly data) changes: we have to update the map
+            # data_id (and possibly data) changes: we have to update the map.
+            # First make sure that no affected node gets a sibling with the
+            # same data_id:
+            for n in cur_nodes if (has_clones and with_clones) else [self]:
+                for sibling in n._parent._children:
+                    if sibling is not n and sibling._data_id == new_data_id:
+                        raise UniqueConstraintError(
+                            "Node.data already exists in parent"
+                        )
             if has_clones:
                 if with_clones:
                     # Move the whole slot (but check if new id already exist)
@@ -341,7 +349,11 @@ class Node:
                             n._data = new_data
                 else:
                     # Move this one node to another slot in the map
-                    node_map[self._data_id].remove(self)
+                    # (`list.remove()` checks for equality, not identity)
+                    for i, n in enumerate(cur_nodes):
+                        if n is self:
+                            cur_nodes.pop(i)
+                            break
                     try:  # are we adding to existing clones again?
                         node_map[new_data_id].append(self)
                     except KeyError:  # now a singleton with a new data_id
